@@ -1,0 +1,16 @@
+//go:build verif
+// +build verif
+
+package cluster
+
+import "github.com/tikv/pd/server/core"
+
+// VerifProcessRegionHeartbeat exposes processRegionHeartbeat to the verification harness.
+func (c *RaftCluster) VerifProcessRegionHeartbeat(region *core.RegionInfo) error {
+	return c.processRegionHeartbeat(region)
+}
+
+// VerifCheckStores exposes checkStores to the verification harness.
+func (c *RaftCluster) VerifCheckStores() {
+	c.checkStores()
+}
